@@ -63,6 +63,10 @@ pub struct GenCfg {
     pub radix_variety: bool,
     /// per-mille: let may appear with complex expression reading counters
     pub ite: u32,
+    /// per-mille chance that a row is a near-copy of the previous row in its block
+    pub row_repeat: u32,
+    /// per-mille chance that an input is 1 bit wide regardless of `widths`
+    pub one_bit_inputs: u32,
 }
 
 impl GenCfg {
@@ -108,6 +112,8 @@ impl GenCfg {
             max_bound: 3,
             radix_variety: true,
             ite: 60,
+            row_repeat: 0,
+            one_bit_inputs: 0,
         }
     }
 }
@@ -187,11 +193,12 @@ pub struct Gen<'a> {
     row_id: usize,
     virt_names: Vec<String>,
     /// names introduced (maybe unassigned) by while bodies — only used in hazard mode
-    maybe: Vec<String>,
+    maybe: Vec<(usize, String)>,
     in_while: usize,
     loop_counters: Vec<String>,
     /// while-loop counters: never chosen as the target of a generated `let`
     protected: Vec<String>,
+    last_row: Option<Vec<Entry>>,
 }
 
 impl<'a> Gen<'a> {
@@ -261,7 +268,11 @@ impl<'a> Gen<'a> {
         };
         for _ in 0..n_in {
             let name = take(self.r, &IN_NAMES, self.cfg.odd_names, &mut used);
-            let bits = self.width(false);
+            let bits = if self.r.chance(self.cfg.one_bit_inputs, 1000) {
+                1
+            } else {
+                self.width(false)
+            };
             let d = self.default_val(bits);
             sigs.push(Sig {
                 name,
@@ -446,7 +457,7 @@ impl<'a> Gen<'a> {
             return Expr::Ident(self.r.pick(&self.readable).clone());
         }
         if self.cfg.hazards > 0 && !self.maybe.is_empty() && self.r.chance(self.cfg.hazards, 1000) {
-            return Expr::Ident(self.r.pick(&self.maybe).clone());
+            return Expr::Ident(self.r.pick(&self.maybe).1.clone());
         }
         if !vars.is_empty() && self.r.chance(550, 1000) {
             return Expr::Ident(self.r.pick(&vars).clone());
@@ -657,6 +668,11 @@ impl<'a> Gen<'a> {
                 c += k;
                 continue;
             }
+            if self.cfg.hazards > 0 && self.r.chance(self.cfg.hazards / 6, 1000) {
+                // zero-width bits(): fills no column
+                let e = self.expr(1, true);
+                out.push(Entry::Bits(0, e));
+            }
             let col = &cols[c];
             let bits = self.col_bits(col);
             let lower = self.r.chance(150, 1000);
@@ -822,9 +838,10 @@ impl<'a> Gen<'a> {
         // names first introduced inside the body may be unassigned afterwards
         let f = self.frames.last_mut().unwrap();
         let dropped: Vec<String> = f.drain(mark..).collect();
+        let depth = self.frames.len();
         for d in dropped {
-            if !self.vars_in_scope().contains(&d) && !self.maybe.contains(&d) {
-                self.maybe.push(d);
+            if !self.vars_in_scope().contains(&d) && !self.maybe.iter().any(|m| m.1 == d) {
+                self.maybe.push((depth, d));
             }
         }
         self.in_while -= 1;
@@ -832,6 +849,13 @@ impl<'a> Gen<'a> {
     }
 
     fn block(&mut self, depth: usize) -> Vec<Item> {
+        let outer_last_row = self.last_row.take();
+        let items = self.block_inner(depth);
+        self.last_row = outer_last_row;
+        items
+    }
+
+    fn block_inner(&mut self, depth: usize) -> Vec<Item> {
         let n = self.between(self.cfg.block_items);
         let mut items = vec![];
         for _ in 0..n {
@@ -855,11 +879,28 @@ impl<'a> Gen<'a> {
                     if !f.contains(&n) {
                         f.push(n.clone());
                     }
-                    self.maybe.retain(|m| *m != n || self.in_while > 0);
+                    self.maybe.retain(|m| m.1 != n || self.in_while > 0);
                     items.push(Item::Let(n, e));
                 }
                 1 => {
-                    let es = self.gen_entries();
+                    let es = match (&self.last_row, self.r.chance(self.cfg.row_repeat, 1000)) {
+                        (Some(prev), true) => {
+                            // near-copy: keep all entries, or regenerate and splice one in
+                            let mut es = prev.clone();
+                            if self.r.chance(600, 1000) {
+                                let fresh = self.gen_entries();
+                                if fresh.len() == es.len()
+                                    && fresh.iter().zip(&es).all(|(a, b)| a.width() == b.width())
+                                {
+                                    let i = self.r.below(es.len());
+                                    es[i] = fresh[i].clone();
+                                }
+                            }
+                            es
+                        }
+                        _ => self.gen_entries(),
+                    };
+                    self.last_row = Some(es.clone());
                     self.row_id += 1;
                     items.push(Item::Row(self.row_id, es));
                 }
@@ -885,6 +926,8 @@ impl<'a> Gen<'a> {
                     self.in_while = saved_while;
                     self.loop_counters.pop();
                     self.frames.pop();
+                    let d = self.frames.len();
+                    self.maybe.retain(|m| m.0 <= d);
                     items.push(Item::Loop(v, b, inner));
                 }
                 4 => {
@@ -1054,6 +1097,7 @@ pub fn generate(r: &mut Prng, cfg: &GenCfg) -> Case {
         in_while: 0,
         loop_counters: vec![],
         protected: vec![],
+        last_row: None,
     };
     g.gen_config();
     let layout = g.gen_layout_and_readable();
